@@ -155,6 +155,9 @@ Proof.
   - destruct (get h s) as [[| | | |cs]|]; try discriminate.
     destruct (copy_chords h u cs) as [[h1 l1]|] eqn:E; [|discriminate]. cbn [obind fst snd alloc] in H. injection H as <- _.
     apply extends_preserves. apply (extends_trans _ h1); [exact (copy_chords_extends _ _ _ _ _ E)|eexists; reflexivity].
+  - destruct (get h s) as [[| | | |cs]|]; try discriminate.
+    destruct (copy_chords h UCopy (concat (repeat cs k))) as [[h1 l1]|] eqn:E; [|discriminate]. cbn [obind fst snd alloc] in H. injection H as <- _.
+    apply extends_preserves. apply (extends_trans _ h1); [exact (copy_chords_extends _ _ _ _ _ E)|eexists; reflexivity].
   - (* the in-place editor: a copy, then writes at or above the old heap size *)
     destruct (get h s) as [[| | | |cs]|]; try discriminate.
     destruct (copy_chords h UCopy cs) as [[h1 l1]|] eqn:E; [|discriminate]. cbn [obind fst snd] in H.
@@ -405,6 +408,9 @@ Proof.
       apply closed_alloc; [exact C1|]. cbn [refs]. apply Forall_app_lt; [exact F1|]. inversion R; subst. constructor; [lia|constructor].
   - destruct (get h s) as [[| | | |cs]|]; try discriminate.
     destruct (copy_chords h u cs) as [[h1 l1]|] eqn:E; [|discriminate]. cbn [obind fst snd alloc] in H. injection H as <- <-.
+    destruct (copy_chords_closed _ _ _ _ _ E Hc) as [C1 F1]. apply closed_alloc; [exact C1|exact F1].
+  - destruct (get h s) as [[| | | |cs]|]; try discriminate.
+    destruct (copy_chords h UCopy (concat (repeat cs k))) as [[h1 l1]|] eqn:E; [|discriminate]. cbn [obind fst snd alloc] in H. injection H as <- <-.
     destruct (copy_chords_closed _ _ _ _ _ E Hc) as [C1 F1]. apply closed_alloc; [exact C1|exact F1].
   - destruct (get h s) as [[| | | |cs]|]; try discriminate.
     destruct (copy_chords h UCopy cs) as [[h1 l1]|] eqn:E; [|discriminate]. cbn [obind fst snd] in H.
